@@ -9,23 +9,28 @@
 (* are invariants of every state; Emit writes one JSON case per finished   *)
 (* run for replay into the real eyaml-rotate-keys.                         *)
 (*                                                                         *)
+(* GenCloseFile ends a file and starts the next one of the same invocation *)
+(* (anchor names start afresh in every file, so files can reuse a name).   *)
+(*                                                                         *)
 (* Containers: 1 = the root hash, 2 and 3 = sequences, 4 = a nested hash   *)
 (* (all children of the root).  Positions are in document order, so the    *)
 (* positions of a container other than the root are contiguous.            *)
 (***************************************************************************)
 EXTENDS YRotate, Json, CSV, IOUtils
 
-CONSTANTS MaxLen, MaxSecret, MaxPlain,
+CONSTANTS MaxFiles,     \* files per invocation
+          MaxLen, MaxSecret, MaxPlain,     \* per file
           Conts,        \* subset of 1..4
           SecretHeads,  \* texts that begin a secret (IsEyaml holds)
           PlainHeads,   \* texts of non-secret scalars (IsEyaml does not hold), near-misses of the marker included
           Folds,        \* subset of BOOLEAN: secrets as folded block scalars?
+          Trails,       \* subset of {"", "ws", "allws", "empty"}: how the plaintexts end
           Keys,         \* subset of {"old", "other", "none"}: what the secrets are encrypted with
           MaxAnchors,   \* 0..2 anchor names ("A", "B")
           Backups       \* subset of BOOLEAN
 
-VARIABLES phase, gdoc, st, hist
-vars == <<phase, gdoc, st, hist>>
+VARIABLES phase, gfiles, gdoc, st, hist
+vars == <<phase, gfiles, gdoc, st, hist>>
 
 ContType(c) == IF c \in {2, 3} THEN "seq" ELSE "map"
 AnchorNames == <<"A", "B">>
@@ -41,32 +46,37 @@ ContOK(c) == c \in Conts /\ (c = 1 \/ (NSlots > 0 /\ gdoc.slots[NSlots].cont = c
 NextAnchor == IF Cardinality(UsedAnchors) < MaxAnchors THEN {AnchorNames[Cardinality(UsedAnchors) + 1]} ELSE {}
 
 AddSlot(c, o) == [gdoc EXCEPT !.slots = Append(@, [cont |-> c, ct |-> ContType(c), o |-> o])]
-AddObj(d, head, key, anc, folded) ==
-  [d EXCEPT !.objs = Append(@, [head |-> head, key |-> key, pt |-> Len(d.objs) + 1, anc |-> anc, folded |-> folded])]
+AddObj(d, head, key, anc, folded, trail) ==
+  [d EXCEPT !.objs = Append(@, [head |-> head, key |-> key, pt |-> Len(d.objs) + 1, anc |-> anc, folded |-> folded,
+                                trail |-> trail])]
 
-Init == phase = "gen" /\ gdoc = [slots |-> <<>>, objs |-> <<>>] /\ st = 0 /\ hist = <<>>
+Init == phase = "gen" /\ gfiles = <<>> /\ gdoc = EmptyDoc /\ st = 0 /\ hist = <<>>
 
 GenPlain == \E c \in Conts, h \in PlainHeads :
   /\ phase = "gen" /\ NSlots < MaxLen /\ ContOK(c) /\ NSlots - Cardinality(SecretSlots) < MaxPlain
-  /\ gdoc' = AddObj(AddSlot(c, Len(gdoc.objs) + 1), h, "none", "", FALSE)
-  /\ UNCHANGED <<phase, st, hist>>
-GenSecret == \E c \in Conts, h \in SecretHeads, k \in Keys, f \in Folds, a \in {""} \cup NextAnchor :
+  /\ gdoc' = AddObj(AddSlot(c, Len(gdoc.objs) + 1), h, "none", "", FALSE, "")
+  /\ UNCHANGED <<phase, gfiles, st, hist>>
+GenSecret == \E c \in Conts, h \in SecretHeads, k \in Keys, f \in Folds, a \in {""} \cup NextAnchor, t \in Trails :
   /\ phase = "gen" /\ NSlots < MaxLen /\ ContOK(c) /\ Cardinality(SecretSlots) < MaxSecret
-  /\ gdoc' = AddObj(AddSlot(c, Len(gdoc.objs) + 1), h, k, a, f)
-  /\ UNCHANGED <<phase, st, hist>>
+  /\ gdoc' = AddObj(AddSlot(c, Len(gdoc.objs) + 1), h, k, a, f, t)
+  /\ UNCHANGED <<phase, gfiles, st, hist>>
 GenAlias == \E c \in Conts, o \in 1..Len(gdoc.objs) :
   /\ phase = "gen" /\ NSlots < MaxLen /\ ContOK(c) /\ Cardinality(SecretSlots) < MaxSecret
   /\ gdoc.objs[o].anc # ""
   /\ gdoc' = AddSlot(c, o)
-  /\ UNCHANGED <<phase, st, hist>>
+  /\ UNCHANGED <<phase, gfiles, st, hist>>
+GenCloseFile ==
+  /\ phase = "gen" /\ Len(gfiles) + 1 < MaxFiles
+  /\ gfiles' = Append(gfiles, gdoc) /\ gdoc' = EmptyDoc /\ UNCHANGED <<phase, st, hist>>
 Start == \E b \in Backups :
-  /\ phase = "gen" /\ phase' = "run" /\ st' = RInit(gdoc, b) /\ hist' = <<>> /\ UNCHANGED gdoc
+  /\ phase = "gen" /\ phase' = "run" /\ st' = RInit(Append(gfiles, gdoc), b) /\ hist' = <<>> /\ UNCHANGED <<gfiles, gdoc>>
 
 \* one named disjunct per event kind so that -coverage reports per-action counts
 Take(kind, cond(_)) == phase = "run" /\ \E e \in Expect(st) :
   /\ e.e = kind /\ cond(e)
-  /\ st' = RStep(st, e) /\ st'.pc # "REJECT" /\ hist' = Append(hist, e) /\ UNCHANGED <<phase, gdoc>>
+  /\ st' = RStep(st, e) /\ st'.pc # "REJECT" /\ hist' = Append(hist, e) /\ UNCHANGED <<phase, gfiles, gdoc>>
 AnyEv(e) == TRUE
+NextFile       == Take("NextFile", AnyEv)
 Find           == Take("Find", AnyEv)
 SkipSeenAnchor == Take("Node", LAMBDA e : e.anc # "" /\ e.anc \in st.seen)
 Select         == Take("Node", LAMBDA e : ~(e.anc # "" /\ e.anc \in st.seen))
@@ -78,7 +88,7 @@ Backup         == Take("Backup", AnyEv)
 Write          == Take("Write", AnyEv)
 Exit           == Take("Exit", AnyEv)
 
-Next == GenPlain \/ GenSecret \/ GenAlias \/ Start \/ Find \/ SkipSeenAnchor \/ Select \/ Decrypt \/ DecryptFail
+Next == GenPlain \/ GenSecret \/ GenAlias \/ GenCloseFile \/ Start \/ NextFile \/ Find \/ SkipSeenAnchor \/ Select \/ Decrypt \/ DecryptFail
         \/ Encrypt \/ Store \/ Backup \/ Write \/ Exit
 Spec == Init /\ [][Next]_vars
 
@@ -94,14 +104,16 @@ AtMostOnce      == Running => InvAtMostOnce(st)
 \* the machine never gets stuck before Done, and the marker decides who is a secret
 Progress        == Running /\ st.pc # "Done" => Expect(st) # {}
 MarkerSound     == (\A h \in SecretHeads : IsEyaml(h)) /\ (\A h \in PlainHeads : ~IsEyaml(h))
-\* with only old-key secrets the run succeeds
-SucceedsOnOld   == Running /\ st.pc = "Done" /\ (\A i \in 1..Len(gdoc.objs) : gdoc.objs[i].key \in {"old", "none"} /\ (IsEyaml(gdoc.objs[i].head) => gdoc.objs[i].key = "old"))
-                     => st.status = 0
+\* with only old-key secrets whose plaintext the tool accepts the run succeeds
+Decryptable(d) == \A i \in 1..Len(d.objs) : IsEyaml(d.objs[i].head) => d.objs[i].key = "old" /\ ~Refused(d.objs[i])
+SucceedsOnOld   == Running /\ st.pc = "Done" /\ (\A i \in 1..Len(st.files) : Decryptable(st.files[i])) => st.status = 0
 
 Emit == Running /\ st.pc = "Done" =>
-  CSVWrite("%1$s", <<ToJson([doc |-> gdoc, backup |-> st.backup, status |-> st.status, nev |-> Len(hist),
-                            final |-> View(st.heap, st.bind), written |-> st.written, backed |-> st.backed,
-                            ndec |-> st.ndec])>>, IOEnv.CASES_OUT)
+  LET fs == FilesOf(st) IN
+  CSVWrite("%1$s", <<ToJson([files |-> st.files, backup |-> st.backup, status |-> st.status, nev |-> Len(hist),
+                            finals |-> [i \in 1..Len(fs) |-> View(fs[i].heap, fs[i].bind)],
+                            written |-> [i \in 1..Len(fs) |-> fs[i].written],
+                            backed |-> [i \in 1..Len(fs) |-> fs[i].backed]])>>, IOEnv.CASES_OUT)
 
 (* pools for the cfg files *)
 HeadsS1 == {"ENC[PKCS7,"}
